@@ -161,7 +161,7 @@ def _wide_cases(tier, seed):
                         shaped=bool(rng.random() < 0.4),
                         np_type=str(rng.choice(["int", "int", "np.int64", "np.int32", "float"])),
                         probe_type=str(rng.choice(["float", "float", "np.float32", "np.float64", "int"])),
-                        cr_mode=str(rng.choice(["none", "none", "none", "empty", "complete", "big", "tiny", "np32"])),
+                        cr_mode=str(rng.choice(["none", "none", "none", "empty", "complete", "big", "tiny", "zero", "np32"])),
                         positional=bool(rng.random() < 0.3),
                         derived=str(rng.choice(["none", "none", "slice", "slice-nocopy", "stride", "stride-nocopy", "fancy", "join", "xyz64", "vectors"]))))
         if kind == "protein":
@@ -426,6 +426,8 @@ def _change_radii(rng, sym, case):
             return {k: round(float(rng.uniform(0.4, 0.7)), 4)}
         if mode == "tiny":
             return {k: round(float(rng.uniform(0.005, 0.03)), 4)}
+        if mode == "zero":  # a point site: the probe rolls on the bare centre (int 0 or float 0.0)
+            return {k: (0 if rng.random() < 0.5 else 0.0)}
         return {k: np.float32(rng.uniform(0.05, 0.3)), "Xx": np.float64(0.2)}  # numpy scalars as values
     if not case["change_radii"]:
         return None
@@ -460,7 +462,9 @@ def _judge_counts(ctx, area, R, lo, hi, n, label, sym):
     """area: float32 atom areas of one frame. Returns (all_ok, counts)."""
     a = area.astype(np.float64)
     unit = O.area_per_point(R, n)
-    c = a / unit
+    point = np.asarray(unit) <= 0  # radius + probe == 0: a sphere of no extent, its area is 0 whatever the point count
+    with np.errstate(divide="ignore", invalid="ignore"):
+        c = np.where(point, 0.0, a / np.where(point, 1.0, unit))
     ci = np.round(c)
     tol = 32 * O.EPS32 * np.maximum(ci, 1.0)
     integral = np.abs(c - ci) <= tol
@@ -470,6 +474,13 @@ def _judge_counts(ctx, area, R, lo, hi, n, label, sym):
     for i in range(len(a)):
         if undecided[i]:
             ctx.skip("oracle.atom-count", "every point of the atom is within the ambiguity band of a neighbour surface")
+            continue
+        if point[i]:
+            if a[i] == 0.0:
+                nok += 1
+            else:
+                good = False
+                ctx.violation("oracle.atom-count", f"{label}:zero-radius-sphere-with-non-zero-area", f"{label}: atom {i} ({sym[i]}) has radius + probe = 0 but area {a[i]:.8g}")
             continue
         if not integral[i]:
             good = False
